@@ -42,3 +42,45 @@ TASK = Task("onset", FUNCS, pair_space, single_space)
 
 
 TASK.edges = {"shift": {"apply": B._shift, "funcs": None, "keys": None}}
+
+
+# ---- repository fixtures (model bound to the recorded outputs; perturbed fixtures as extra C04 states)
+def _fixture_files():
+    import glob
+    import os
+    root = os.environ.get("VERIF_REPO") or "/repo"
+    d = os.path.join(root, "tests", "data", "onset")
+    return list(zip(sorted(glob.glob(d + "/ref*.txt")), sorted(glob.glob(d + "/est*.txt")),
+                    sorted(glob.glob(d + "/output*.json"))))
+
+
+def fixture_check(tier):
+    import json
+    from mc import core
+    files = _fixture_files()
+    if not files:
+        raise core.HarnessError("onset fixtures not found")
+    n = 0
+    for rf, ef, of in files:
+        R, E = list(B._load_events(rf)), list(B._load_events(ef))
+        exp = json.load(open(of))
+        f, p, r = S.onset_f_measure(R, E)
+        for k, v in (("F-measure", f), ("Precision", p), ("Recall", r)):
+            if abs(exp[k] - v) > 1e-7:
+                raise core.HarnessError("onset reference model disagrees with recorded fixture %s key %s" % (of, k))
+        n += 1
+    return n
+
+
+def fixture_states(tier):
+    out = []
+    files = _fixture_files()
+    for rf, ef, _ in (files if tier == "thorough" else files[:2]):
+        R, E = B._load_events(rf), B._load_events(ef)
+        out += [(R, E), (R, tuple(e for i, e in enumerate(E) if i % 3 != 2)), (R, tuple(e + 1 / 64.0 for e in E)),
+                (tuple(r for i, r in enumerate(R) if i % 4 != 1), E)]
+    return out
+
+
+TASK.fixture_check = fixture_check
+TASK.fixture_states = fixture_states
